@@ -83,9 +83,10 @@ PROPS: dict[str, dict[str, Any]] = {
                 "{none, one name, per-name subsets}; the nested generators of the real stream_data are consumed in the order the real consumers do; "
                 "postcondition: names once, traces once, spans == the nodes rows of the trace, child links == association rows. non-trivial = more than "
                 "one trace",
-        "assumptions": ["bounded, not proved: itertools.groupby over a server-side cursor (escaping lazy generators) is outside the verifier's subset; the "
-                        "proved part (contracts/c12.py) covers only node_to_otel_event and job_ids_to_eventid_to_otelevent_map, with node.children (the ORM "
-                        "relationship over the association table) trusted"],
+        "assumptions": ["the end-to-end statement is bounded, not proved: lazily consumed nested iterators over a server-side cursor are outside the "
+                        "verifier's list semantics; the proved part (contracts/c12.py) reads generators as lists, trusts a model of itertools.groupby "
+                        "(pyvc/itertools_model.py, validated by sampling), the SQL row stream (stream_job_name_batches: selected rows ordered by job_name, "
+                        "job_id) and node.children (the ORM relationship over the association table)"],
     },
     "C14": {
         "level": "exploration",
